@@ -402,6 +402,28 @@ pub fn robust(data: &[u8]) -> Result<u32, String> {
         s.write_all(&c[n..]).map_err(|e| format!("StripStream::write_all: {e}"))?;
     }
     let _ = write!(s, "{}", String::from_utf8_lossy(payload));
+    // degenerate calls: no buffers at all, only empty buffers, an empty write, an empty write_all
+    for (what, r) in [
+        ("write_vectored(&[])", s.write_vectored(&[])),
+        ("write_vectored(&[&[], &[]])", s.write_vectored(&[std::io::IoSlice::new(&[]), std::io::IoSlice::new(&[])])),
+        ("write(&[])", s.write(&[])),
+    ] {
+        match r {
+            Ok(0) => {}
+            other => return Err(format!("StripStream::{what} returned {other:?}, expected Ok(0)")),
+        }
+    }
+    s.write_all(&[]).map_err(|e| format!("StripStream::write_all(&[]): {e}"))?;
+    {
+        let mut a = anstream::AutoStream::never(Vec::new());
+        let mut b = anstream::AutoStream::always_ansi(Vec::new());
+        for w in [&mut a as &mut dyn std::io::Write, &mut b as &mut dyn std::io::Write] {
+            match w.write_vectored(&[]) {
+                Ok(0) => {}
+                other => return Err(format!("AutoStream::write_vectored(&[]) returned {other:?}, expected Ok(0)")),
+            }
+        }
+    }
     reached += 3;
 
     // styled-run extractor
